@@ -119,7 +119,7 @@ def make_server(tr, version):
     srv.lock = TracedLock(tr)
     AD = audit_dict(tr)
     from collections import defaultdict
-    orig = srv._new_db
+    orig = srv.dbs.default_factory
 
     class AuditDbs(defaultdict):
         def __missing__(self, k):
